@@ -103,11 +103,12 @@ fn main() {
             for pre in 0..7usize {
                 for skew in [0u32, 0xFFFFF] {
                     for bits in 0..8u8 {
-                        for n in [1usize, 8, 64] {
+                        for n in [1usize, 8, 64, 256] {
                             let mut v = match n {
                                 1 => vlab::c06::run_registration::<1>(tk, pre, skew, bits),
                                 8 => vlab::c06::run_registration::<8>(tk, pre, skew, bits),
-                                _ => vlab::c06::run_registration::<64>(tk, pre, skew, bits),
+                                64 => vlab::c06::run_registration::<64>(tk, pre, skew, bits),
+                                _ => vlab::c06::run_registration::<256>(tk, pre, skew, bits),
                             };
                             // The second queue of the device, also created a second time after
                             // the device was re-initialised (reset) in between.
@@ -129,7 +130,21 @@ fn main() {
                 }
             }
         }
-        c.add_sweep("registration: VirtQueue::new (N = 1, 8, 64; 8 flag combinations) on the model, MMIO legacy, MMIO modern and PCI transports with the queue's regions starting in each of 7 different 4 GiB windows and two platform address skews; the addresses the register-level device received are held against the layout oracle; queue 1 of a two-queue device also created a second time after a re-initialisation", ev, classes.len() as u64, true, J::obj());
+        // Maximum sizes that are not powers of two, through the real transports.
+        for tk in ALL_TKINDS {
+            let part = format!("registration:{}", tk.name());
+            let mut seen = std::collections::HashSet::new();
+            for max in [0u32, 1, 3, 5, 6, 7, 8, 9, 12, 15, 16, 17, 100, 0x7fff, 0x8000, 0xffff] {
+                let v = vlab::c06::run_refusal::<8>(tk, max);
+                ev += 1;
+                for (k, d) in v {
+                    if seen.insert(k.clone()) {
+                        c.add_violation(Violation::new("C06", k, format!("{} transport, N=8, device maximum {}: {}", tk.name(), max, d)), &part, J::obj().set("kind", J::s("refusal")).set("transport", J::s(tk.name())).set("max", J::i(max)), vec![]);
+                    }
+                }
+            }
+        }
+        c.add_sweep("registration: VirtQueue::new (N = 1, 8, 64, 256; 8 flag combinations) on the model, MMIO legacy, MMIO modern and PCI transports with the queue's regions starting in each of 7 different 4 GiB windows and two platform address skews; the addresses the register-level device received are held against the layout oracle; queue 1 of a two-queue device also created a second time after a re-initialisation; N = 8 against 16 device maxima including values that are not powers of two", ev, classes.len() as u64, true, J::obj());
     }
     c.add_sample(J::obj().set("case", J::s("N=256 legacy=true indirect=false event_idx=true ap=false in_use=false max=256 -> created; queue_set(desc=P, driver=P+4096, device=P+8192), 3 pages freed once")));
     c.finish();
